@@ -1350,6 +1350,12 @@ ws_http_cb_dialer(nni_ws *ws, nni_aio *aio)
 	// in which case we no longer care, and just go to the error
 	// case to discard the ws.
 	if (((rv = nni_aio_result(aio)) != 0) || (uaio == NULL)) {
+		// The peer hanging up during the upgrade is reported by the
+		// HTTP layer as NNG_ECLOSED; our caller must not mistake that
+		// for this dialer having been closed (it would never redial).
+		if ((rv == NNG_ECLOSED) && (!d->closed)) {
+			rv = NNG_ECONNSHUT;
+		}
 		goto err;
 	}
 
